@@ -86,6 +86,9 @@ func relaxedObj(g, d *e1.ObjDump) (string, string) {
 	if d.StrsErr == "" && g.StrsErr == "" && !reflect.DeepEqual(g.Strs, d.Strs) {
 		return "strings-differ", "ReadStrings differs from the intact file"
 	}
+	if d.SliceErr == "" && g.SliceErr == "" && g.SliceSum != "" && d.SliceSum != "" && d.SliceSum != g.SliceSum {
+		return "slice-differs", "ReadSlice of a centre block differs from the intact file"
+	}
 	if d.CompErr == "" && g.CompErr == "" && !e1.SameCompound(g.Comp, d.Comp) {
 		return "compound-differs", "ReadCompound differs from the intact file"
 	}
